@@ -1729,7 +1729,7 @@ def randomizer_bin_und(R, alpha, seed=None):
     ax = len(R)
     nr_poss_edges = (np.dot(ax, ax) - ax) / 2  # find maximum possible edges
 
-    savediag = np.diag(R)
+    savediag = np.diag(R).copy()
     np.fill_diagonal(R, np.inf)  # replace diagonal with high value
 
     # if there are more edges than non-edges, invert the matrix to reduce
@@ -1740,7 +1740,7 @@ def randomizer_bin_und(R, alpha, seed=None):
     k = len(i)
     if k > nr_poss_edges / 2:
         swap = True
-        R = np.logical_not(R)
+        R = np.logical_not(R).astype(float)
         np.fill_diagonal(R, np.inf)
         i, j = np.where(np.triu(R, 1))
         k = len(i)
@@ -1819,7 +1819,7 @@ def randomizer_bin_und(R, alpha, seed=None):
 
     # restore inversion
     if swap:
-        R = np.logical_not(R)
+        R = np.logical_not(R).astype(float)
 
     # restore diagonal
     np.fill_diagonal(R, 0)
